@@ -161,8 +161,19 @@ func init() {
 		Oracle: oracleC23, Quick: 400, Thorough: 20000,
 		Assumptions: []string{"refsn encodes MQTT-SN 1.2 + bisquitt AUTH correctly (written from the specification, cross-checked against datagrams the 181 repo tests expect)", "datagram transport is the simulated link, not pion/udp"}})
 	Register(&Check{ID: "C24", Level: "exploration",
-		Rule: "random raw-peer sessions biased to decodable-but-untranslatable input (reserved topic-id type, QoS 3 SUBSCRIBE, id 0, DUP+QoS0, empty/wildcard/NUL names, will oddities); every MQTT packet written to the broker is judged by refmqtt; non-trivial = >= 2 MQTT packets judged",
-		Gen:  func(g *Gen, idx int) *Plan { return genGWMix(g, 0.35, "C24-gwmix") },
+		Rule: "random raw-peer sessions biased to decodable-but-untranslatable input (reserved topic-id type, QoS 3 SUBSCRIBE, id 0, DUP+QoS0, empty/wildcard/NUL names, will oddities), every third run the connect-exchange generator of C08/C09 (out-of-turn, repeated, retransmitted and empty WILLTOPIC/WILLMSG/AUTH, slow broker); every MQTT packet written to the broker is judged by refmqtt; non-trivial = >= 2 MQTT packets judged",
+		Gen: func(g *Gen, idx int) *Plan {
+			if idx%3 == 2 {
+				// the connect exchange with its out-of-turn, repeated and "no will after all" packets
+				p := genConnectExchange(g, "C24-exchange", "C24")
+				if p.Cfg.GwHasPass && p.Cfg.GwUser == nil {
+					u := "gwuser" // (a password without a user is a configuration error, not client input)
+					p.Cfg.GwUser = &u
+				}
+				return p
+			}
+			return genGWMix(g, 0.35, "C24-gwmix")
+		},
 		Oracle: oracleC24, Quick: 400, Thorough: 20000,
 		Assumptions: []string{"refmqtt implements the MQTT 3.1.1 normative statements listed in DESIGN.md §3.5"}})
 }
